@@ -156,6 +156,32 @@ CHECKS.update({
         design_ref="DESIGN.md section 5 C19"),
 })
 
+CODEGEN = "TLA+ spec of the code-generation cases (spec/ISCodeGen.tla) model-checked by TLC; every enumerated case concretised and run through real sessions"
+CHECKS.update({
+    "C01": dict(
+        category="exploration", technique=CODEGEN,
+        text="TLC enumerates every valid case leaf type (29 tags incl. Enum, Flag, classes, dataclass / attrs / pydantic / "
+             "namedtuple / defaultdict, outsourced externals, HasRepr objects) x container x operation x placement; each "
+             "is created by a real session and the rewritten module must pass with --inline-snapshot=disable. Concrete "
+             "values per tag are sampled, hence `exploration`",
+        design_ref="DESIGN.md section 5 C01"),
+    "C16": dict(
+        category="exploration", technique=CODEGEN + "; separate interpreters per hash seed",
+        text="the model states that the written order of set elements never depends on the iteration order (per element "
+             "class: totally ordered, not orderable, partially ordered); 20 values x 2 construction variants x 4 (quick) / "
+             "12 (thorough) PYTHONHASHSEED values x black / no black / format-command are created in separate "
+             "interpreters and compared textually (seeds, orders) and by syntax tree (formatters)",
+        design_ref="DESIGN.md section 5 C16"),
+    "C20": dict(
+        category="exploration",
+        technique="TLA+ spec of the whole-file formatting decision (spec/ISFormat.tla) model-checked by TLC; every case run as a real session and judged by an independent black run",
+        text="TLC checks CleanStaysClean / UncleanNotReformatted for clean x format-command x option set x working "
+             "directory x value shape x change set; each case is a real session in a project with that [tool.black] "
+             "section, started from the root, a sub-directory or outside; the result is checked by black with a Mode "
+             "built independently from the same options",
+        design_ref="DESIGN.md section 5 C20"),
+})
+
 NOT_YET = {
 }
 
